@@ -20,48 +20,40 @@ MATCH_TYPES = ("equals", "contains", "starts-with", "ends-with")
       desc="match-type dispatch: _match has a branch for each RFC 6352 match type, raises otherwise, and the value "
            "returned in each branch references both operands")
 def a1(ctx):
+    from ..peval import PEval, Sym, Term, Raised
     fi = ctx.func(COLL + "._match")
-    cfg = ctx.cfg(fi)
-    a, b, k = (fi.params + [None, None, None])[:3]
+    mod = fi.module
+    pe = PEval(ctx.P, fi.short)
+    A, B = Sym("value"), Sym("pattern")
+    from ..peval import Closure
+    f = Closure(fi.node, {}, mod)
     obs = []
-    seen = {}
-    for r in [n for n in cfg.nodes if n.kind == "return"]:
-        for t, pol in cfg.required_conditions(r):
-            if pol and isinstance(t, ast.Compare) and isinstance(t.ops[0], ast.Eq) and isinstance(t.left, ast.Name) and t.left.id == k:
-                v = ctx.P.try_fold(fi.module, t.comparators[0])
-                if isinstance(v, str):
-                    seen[v] = r
+    expect = {"equals": [Term("eq", A, B), Term("eq", B, A)], "contains": [Term("in", B, A)],
+              "starts-with": [Term("startswith", A, B)], "ends-with": [Term("endswith", A, B)]}
     for mt in MATCH_TYPES:
-        r = seen.get(mt)
-        if r is None:
-            obs.append(ctx.bad(fi.qualname, fi.where, "match type %s has a branch" % mt,
-                               "_match has no branch for match type %r" % mt))
+        try:
+            t = pe.apply(f, [A, B, mt], {}, fi.node)
+            raised = None
+        except Raised as r:
+            t, raised = None, r.name
+        obs.append(ctx.ob(raised is None and t is not None, fi.qualname, fi.where, "match type %s has a branch" % mt,
+                          "_match(value, pattern, %r) = %r" % (mt, t),
+                          "_match has no branch for match type %r (%s)" % (mt, "raises %s" % raised if raised else "returns nothing")))
+        if t is None:
             continue
-        names = {x.id for x in ast.walk(r.ast.value) if isinstance(x, ast.Name)} if r.ast.value is not None else set()
-        both = a in names and b in names
-        obs.append(ctx.ob(both, fi.qualname, where(fi, r), "match type %s compares both operands" % mt,
-                          "`%s`" % src(r.ast.value),
-                          "the %r branch returns `%s`, which does not involve both operands (%s, %s): the result does not depend on the "
-                          "text being matched" % (mt, src(r.ast.value), a, b)))
-    # semantics per branch: operator / method
-    expect = {"equals": ("Eq", None), "contains": ("In", None), "starts-with": (None, "startswith"), "ends-with": (None, "endswith")}
-    for mt, (op, meth) in expect.items():
-        r = seen.get(mt)
-        if r is None or r.ast.value is None:
-            continue
-        v = r.ast.value
-        ok = False
-        if op and isinstance(v, ast.Compare) and type(v.ops[0]).__name__ == op:
-            ok = True
-            if op == "In":
-                ok = isinstance(v.left, ast.Name) and v.left.id == b and isinstance(v.comparators[0], ast.Name) and v.comparators[0].id == a
-        if meth and isinstance(v, ast.Call) and isinstance(v.func, ast.Attribute) and v.func.attr == meth:
-            ok = isinstance(v.func.value, ast.Name) and v.func.value.id == a and len(v.args) == 1 and isinstance(v.args[0], ast.Name) and v.args[0].id == b
-        obs.append(ctx.ob(ok, fi.qualname, where(fi, r), "match type %s uses the right primitive" % mt,
-                          "`%s`" % src(v), "the %r branch returns `%s`; expected %s of the value (%s) against the pattern (%s)"
-                          % (mt, src(v), meth or ("%s in %s" % (b, a) if op == "In" else "%s == %s" % (a, b)), a, b)))
-    other = [n for n in cfg.nodes if n.kind == "raise"]
-    obs.append(ctx.ob(bool(other), fi.qualname, fi.where, "unknown match type raises", "falls through to raise",
+        from ..peval import mentions
+        both = mentions(t, A) and mentions(t, B)
+        obs.append(ctx.ob(both, fi.qualname, fi.where, "match type %s compares both operands" % mt, "%r" % (t,),
+                          "for %r _match computes `%r`, which does not involve both operands: the result does not depend on the "
+                          "text being matched" % (mt, t)))
+        obs.append(ctx.ob(t in expect[mt], fi.qualname, fi.where, "match type %s uses the right primitive" % mt, "%r" % (t,),
+                          "for %r _match computes `%r`; expected %r (value against pattern)" % (mt, t, expect[mt][0])))
+    try:
+        t = pe.apply(f, [A, B, "no-such-match-type"], {}, fi.node)
+        other = False
+    except Raised:
+        other = True
+    obs.append(ctx.ob(other, fi.qualname, fi.where, "unknown match type raises", "falls through to raise",
                       "_match no longer raises for an unknown match type"))
     return obs
 
@@ -75,20 +67,29 @@ def a2(ctx):
     e = m.const_exprs.get("collations")
     if not isinstance(e, ast.Dict):
         raise AnalysisError("collation.collations is no longer a dict literal")
+    from ..peval import PEval, Sym, Term, Raised, subterms
+    pe = PEval(ctx.P, "collation.collations")
+    table = pe.ev(e, {}, m)
+    NARROW = ("ascii", "usascii", "latin1", "iso88591", "cp1252")
     for kx, vx in zip(e.keys, e.values):
         name = ctx.P.try_fold(m, kx)
         bad = []
-        for n in ast.walk(vx):
-            if isinstance(n, ast.Call) and isinstance(n.func, ast.Attribute) and n.func.attr in ("encode", "decode"):
-                codec = ctx.P.try_fold(m, n.args[0]) if n.args else "utf-8"
-                errs = n.args[1] if len(n.args) > 1 else None
-                for kw in n.keywords:
-                    if kw.arg == "errors":
-                        errs = kw.value
-                    if kw.arg == "encoding":
-                        codec = ctx.P.try_fold(m, kw.value)
-                if isinstance(codec, str) and codec.lower().replace("-", "").replace("_", "") in ("ascii", "usascii", "latin1", "iso88591", "cp1252") and errs is None:
-                    bad.append(src(n))
+        fcoll = pe.dict_get(table, name)
+        for mt in MATCH_TYPES:
+            try:
+                t = pe.apply(fcoll, [Sym("value"), Sym("pattern"), mt], {}, vx)
+            except Raised:
+                continue
+            for x in subterms(t):
+                if isinstance(x, Term) and x.op in ("encode", "decode"):
+                    rest = list(x.args[1:])
+                    kws = dict(a_ for a_ in rest if isinstance(a_, tuple) and len(a_) == 2 and isinstance(a_[0], str) and a_[0] in ("encoding", "errors"))
+                    posl = [a_ for a_ in rest if not (isinstance(a_, tuple) and len(a_) == 2 and a_[0] in ("encoding", "errors"))]
+                    codec = kws.get("encoding", posl[0] if posl else "utf-8")
+                    errs = kws.get("errors", posl[1] if len(posl) > 1 else None)
+                    if isinstance(codec, str) and codec.lower().replace("-", "").replace("_", "") in NARROW and errs is None:
+                        if repr(x) not in bad:
+                            bad.append(repr(x))
         obs.append(ctx.ob(not bad, COLL + ".collations[%r]" % name, "%s:%d" % (m.rel, vx.lineno), "collation %s handles any text" % name,
                           "no strict narrow codec", "collation %r applies %s: any non-ASCII character in a card (or in the pattern) raises "
                           "UnicodeError and the whole REPORT fails with 500" % (name, ", ".join(bad))))
@@ -287,23 +288,35 @@ def a6(ctx):
       desc="i;ascii-casemap folds ASCII letters only: the case folding is applied to encoded bytes (bytes.upper/lower), "
            "never to str (str.upper is Unicode-aware: 'ß'->'SS', 'ë'->'Ë')")
 def a7(ctx):
+    from ..peval import PEval, Sym, Term, Raised, subterms
     m = ctx.P.module(COLL)
     e = m.const_exprs.get("collations")
     if not isinstance(e, ast.Dict):
         raise AnalysisError("collation.collations is no longer a dict literal")
+    pe = PEval(ctx.P, "collation.collations")
+    table = pe.ev(e, {}, m)
     obs = []
+    FOLDS = ("upper", "lower", "casefold", "title", "swapcase", "capitalize")
     for kx, vx in zip(e.keys, e.values):
         if ctx.P.try_fold(m, kx) != "i;ascii-casemap":
             continue
-        folds = [n for n in ast.walk(vx) if isinstance(n, ast.Call) and isinstance(n.func, ast.Attribute) and n.func.attr in ("upper", "lower", "casefold", "title", "swapcase")]
+        fcoll = pe.dict_get(table, "i;ascii-casemap")
+        bad, folds = [], 0
+        for mt in MATCH_TYPES:
+            try:
+                t = pe.apply(fcoll, [Sym("value"), Sym("pattern"), mt], {}, vx)
+            except Raised:
+                continue
+            for x in subterms(t):
+                if isinstance(x, Term) and x.op in FOLDS:
+                    folds += 1
+                    recv = x.args[0] if x.args else None
+                    on_bytes = isinstance(recv, Term) and recv.op == "encode"
+                    if x.op == "casefold" or not on_bytes:
+                        if repr(x) not in bad:
+                            bad.append(repr(x))
         if not folds:
-            raise AnalysisError("i;ascii-casemap: no case-folding call found (unmodelled implementation)")
-        bad = []
-        for f in folds:
-            recv = f.func.value
-            on_bytes = isinstance(recv, ast.Call) and isinstance(recv.func, ast.Attribute) and recv.func.attr == "encode"
-            if f.func.attr == "casefold" or not on_bytes:
-                bad.append(src(f))
+            bad.append("no case folding at all")
         obs.append(ctx.ob(not bad, COLL + ".collations['i;ascii-casemap']", "%s:%d" % (m.rel, vx.lineno), "case folding on bytes",
                           "every fold is <str>.encode(...).upper()", "i;ascii-casemap folds case with %s on text: non-ASCII letters are folded too "
                           "(and 'ß' expands to 'SS'), so cards match that RFC 4790's ASCII casemap keeps apart" % ", ".join(bad)))
